@@ -622,15 +622,14 @@ def _check_pdf(case):
             continue
         sub = {'theta': th, 'got': g, 'prior_density': pr, 'admissible_counts': [lo, hi], 'distances': ds,
                'eps_cutoff': eps, 'surrogate_used': case['surrogate_used']}
-        # classify
+        # classify by what the failing case involves (regions are consulted only with surrogate_used)
         if pr > 0 and abs(g / pr - round(g / pr)) < 1e-9:
             sub['got_count'] = int(round(g / pr))
-            slo, shi = _count_range(th, frames, funcs, eps, case['surrogate_used'], strict=True)
+            if case['surrogate_used']:
+                return bad('C19:posterior:pdf:wrong-count-with-region-membership', sub)
+            slo, shi = _count_range(th, frames, funcs, eps, False, strict=True)
             if at_cut and slo <= sub['got_count'] <= shi:
                 return bad('C19:posterior:pdf:distance-exactly-at-cutoff-not-counted', sub)
-            nlo, nhi = _count_range(th, frames, funcs, eps, False)
-            if case['surrogate_used'] and sub['got_count'] == nlo:
-                return bad('C19:posterior:pdf:region-membership-ignored-with-surrogates', sub)
             return bad('C19:posterior:pdf:wrong-count-of-problems', sub)
         return bad('C19:posterior:pdf:not-prior-times-count', sub)
     # one point through the single-point entry as well
@@ -720,8 +719,10 @@ def _post_cases(q, base):
     ]
     reg2 = [
         {'rot': [['I']], 'center': [0.0, 0.0], 'limits': [[-1, 1], [-0.5, 0.5]]},
-        {'rot': [['rot', 0, 1, 2]], 'center': [0.5, -0.5], 'limits': [[-1, 1], [-1, 1]]},
+        # asymmetric limits under proper rotations: R and its inverse / transpose describe different sets
+        {'rot': [['rot', 0, 1, 2]], 'center': [0.5, -0.5], 'limits': [[-1, 0.5], [-0.25, 1.5]]},
         {'rot': [['rot', 0, 1, 1], ['refl', 0]], 'center': [1.0, 0.0], 'limits': [[0, 0], [-2, 1]]},
+        {'rot': [['rot', 0, 1, 5]], 'center': [-0.5, 0.5], 'limits': [[-0.5, 1], [-1, 0.25]]},
     ]
 
     def pairs1(eps):
@@ -730,7 +731,7 @@ def _post_cases(q, base):
 
     def pairs2(eps):
         return [(reg2[0], ['maxnorm', [0.0, 0.0], 1.0]), (reg2[1], ['l1', [0.5, -0.5], 1.0]),
-                (reg2[2], ['quad', [1.0, 0.0], [1.0, 0.25]]), (reg2[1], ['const', eps]), (reg2[0], ['const', eps - 0.5])]
+                (reg2[2], ['quad', [1.0, 0.0], [1.0, 0.25]]), (reg2[1], ['const', eps]), (reg2[3], ['const', eps - 0.5])]
     ax1 = [[-3.0 + 0.25 * i for i in range(25)]]
     ax2 = [[-2.5 + 0.5 * i for i in range(11)], [-2.0 + 0.5 * i for i in range(9)]]
     if not q:
